@@ -81,7 +81,7 @@ class _SleepProbe:
 
 # --------------------------------------------------------------------------- the world around the real code
 class World:
-    def __init__(self, nbs, mutant=None):
+    def __init__(self, nbs, mutant=None, backend='fake'):
         import cflib.crazyflie.mem.lighthouse_memory as lhm
         import cflib.localization.lighthouse_config_manager as lcm
         from cflib.crazyflie.localization import Localization
@@ -141,12 +141,19 @@ class World:
                 world.port_cbs.setdefault(port, []).append(cb)
 
             def send_packet(self, pk, expected_reply=(), resend=False, timeout=0.2):
-                world.sent(pk)
+                from cflib.crtp.crtpstack import CRTPPort
+                if pk.port == CRTPPort.MEM and world.backend == 'memory':
+                    world.mem_out.append(pk)
+                else:
+                    world.sent(pk)
 
         self.cf = Cf()
         self.cf.mem = Mem()
         self.cf.param = Param()
         self.cf.loc = Localization(self.cf)
+        self.backend = backend
+        if backend == 'memory':
+            self._real_memory(Caller, MemoryElement)
         if mutant:
             self.undo = MUTANTS[mutant](self) or []
         self.helper = lhm.LighthouseMemHelper(self.cf)
@@ -154,6 +161,61 @@ class World:
         _SleepProbe.world = self
         if not isinstance(lcm.time, _SleepProbe):
             lcm.time = _SleepProbe()
+
+    def _real_memory(self, Caller, MemoryElement):
+        """backend 'memory': the real cflib.crazyflie.mem.Memory sits between LighthouseMemory and the (packet level)
+        device; the LighthouseMemory object is created by Memory's own discovery code."""
+        from cflib.crazyflie import mem as memmod
+        from cflib.crtp.crtpstack import CRTPPacket, CRTPPort
+        world = self
+        self.mem_out = []
+        self.cf.disconnected = Caller()
+
+        class RecMemory(memmod.Memory):
+            def write(self, memory, addr, data, flush_queue=False, progress_cb=None):
+                raw = bytes(bytearray(data))
+                reg, bs = addr_to_region(addr)
+                tag, val = decode_written(reg, raw)
+                if flush_queue:
+                    del world.qw[1:]
+                world.qw.append({'addr': addr, 'reg': reg, 'bs': bs, 'tag': tag, 'val': val, 'nchunks': max(1, -(-len(raw) // 25))})
+                world.emit(E('mw', op=reg, bs=bs, tag=tag, val=val))
+                return memmod.Memory.write(self, memory, addr, data, flush_queue, progress_cb)
+
+            def read(self, memory, addr, length):
+                res = memmod.Memory.read(self, memory, addr, length)
+                if res:
+                    reg, bs = addr_to_region(addr)
+                    want = 49 if reg == 'g' else 61
+                    world.qr.append({'addr': addr, 'reg': reg, 'bs': bs if length == want else -1, 'len': length})
+                    world.emit(E('mr', op=reg, bs=bs if length == want else -1))
+                return res
+
+        self.memory = RecMemory(self.cf)
+        self.cf.mem = self.memory
+        self.memory.refresh(lambda: None)
+
+        def feed(chan, data):
+            pk = CRTPPacket()
+            pk.set_header(CRTPPort.MEM, chan)
+            pk.data = data
+            for cb in list(world.port_cbs.get(CRTPPort.MEM, [])):
+                cb(pk)
+        self.feed_mem = feed
+        self.mem_out = []
+        feed(memmod.CHAN_INFO, struct.pack('<BB', memmod.CMD_INFO_NBR, 1))
+        feed(memmod.CHAN_INFO, struct.pack('<BBBI8B', memmod.CMD_INFO_DETAILS, 0, MemoryElement.TYPE_LH, 0x2000, *([0] * 8)))
+        self.mem_out = []
+        mems = self.memory.get_mems(MemoryElement.TYPE_LH)
+        if len(mems) != 1:
+            raise common.MachineryError('Memory discovery did not create the LighthouseMemory')
+        self.lh_mem = mems[0]
+
+    def _pending(self, chan):
+        for i, pk in enumerate(self.mem_out):
+            if pk.channel == chan:
+                return self.mem_out.pop(i)
+        return None
 
     def close(self):
         for fn in reversed(self.undo):
@@ -259,7 +321,15 @@ class World:
         q = self.qw.pop(0)
         self._chunk('ans')
         self.emit(E('ans', op='w', ok=ok, bs=q['bs']))
-        self._deliver((self.mem_write_cb if ok else self.mem_write_failed_cb).call, self.lh_mem, q['addr'])
+        if self.backend == 'memory':
+            for _ in range(q['nchunks'] if ok else 1):      # the device acknowledges chunk after chunk / rejects the first one
+                pk = self._pending(2)
+                if pk is None:
+                    break
+                mid, addr = struct.unpack('<BI', bytes(bytearray(pk.data))[:5])
+                self._deliver(self.feed_mem, 2, struct.pack('<BIB', mid, addr, 0 if ok else 1))
+        else:
+            self._deliver((self.mem_write_cb if ok else self.mem_write_failed_cb).call, self.lh_mem, q['addr'])
         self.cur = None
         return True
 
@@ -268,12 +338,24 @@ class World:
             return False
         q = self.qr.pop(0)
         self._chunk('ans')
-        if ok:
-            data = geo_bytes(tag, val) if q['reg'] == 'g' else calib_bytes(tag, val)
-            self.emit(E('ans', op='r', ok=1, bs=q['bs'], tag=tag, val=val))
+        data = (geo_bytes(tag, val) if q['reg'] == 'g' else calib_bytes(tag, val)) if ok else b''
+        self.emit(E('ans', op='r', ok=1, bs=q['bs'], tag=tag, val=val) if ok else E('ans', op='r', ok=0, bs=q['bs']))
+        if self.backend == 'memory':
+            for _ in range(8):
+                pk = self._pending(1)
+                if pk is None:
+                    break
+                mid, addr, ln = struct.unpack('<BIB', bytes(bytearray(pk.data))[:6])
+                if not ok:
+                    self._deliver(self.feed_mem, 1, struct.pack('<BIB', mid, addr, 1))
+                    break
+                off = addr - q['addr']
+                self._deliver(self.feed_mem, 1, struct.pack('<BIB', mid, addr, 0) + data[off:off + ln])
+                if off + ln >= q['len']:
+                    break
+        elif ok:
             self._deliver(self.mem_read_cb.call, self.lh_mem, q['addr'], data)
         else:
-            self.emit(E('ans', op='r', ok=0, bs=q['bs']))
             self._deliver(self.mem_read_failed_cb.call, self.lh_mem, q['addr'], bytearray())
         self.cur = None
         return True
@@ -354,11 +436,11 @@ def read_tag(bs, salt=0):
     return 100 + bs + 20 * salt
 
 
-def run_script(sc, mutant=None, want_projection=False):
+def run_script(sc, mutant=None, want_projection=False, backend=None):
     """sc = {'nbs': n, 'steps': [...]}; steps: ['call', d, f] | ['w', ok] | ['r', ok, tag, val] | ['p', ok] |
     ['pump', wok, rok, pok] (answer everything outstanding, in the order write, read, ack, until quiet) | ['fin'].
     Returns the trace (without id) and, if asked, the projection after every applied step."""
-    w = World(sc['nbs'], mutant)
+    w = World(sc['nbs'], mutant, backend or sc.get('backend', 'fake'))
     proj = []
     applied = 0
     try:
@@ -860,7 +942,9 @@ def main(tier, seed, replay=None):
     out = common.Outcome('X01', tier, seed)
     rng = random.Random(seed)
     out.assumptions = [
-        'one Crazyflie with one LighthouseMemory; one user LighthouseMemHelper and one LighthouseConfigWriter (with its own helper) on it',
+        'one Crazyflie with one LighthouseMemory; one user LighthouseMemHelper and one LighthouseConfigWriter (with its own helper) on it; '
+        'the memory subsystem is a scripted handler with Memory\'s interface (half of the scenarios) or the real cflib Memory answered '
+        'at packet level, chunk by chunk (other half; LighthouseMemory then comes from Memory\'s own discovery code)',
         'the memory subsystem answers every request it was handed exactly once, in order, OK or failed; the device acknowledges every '
         'persist packet exactly once (result 0 or 1) and sends no unsolicited acknowledgement; no disconnect while a request is in progress',
         'store requests: nr_of_base_stations >= 1, keys of geos/calibs inside 0..nr_of_base_stations-1, a callback is given, '
@@ -912,9 +996,18 @@ def main(tier, seed, replay=None):
     # 3. code -> spec: enumerations + random, judged by the monitor
     fams = [fam_store(tier, rng), fam_helper_writes(tier, rng), fam_reads(tier, rng), fam_pairs(tier, rng), fam_random(tier, rng)]
     scs = [sc for f in fams for sc in f]
+    for i, sc in enumerate(scs):
+        sc['backend'] = 'memory' if i % 2 else 'fake'     # half of them with the real cflib Memory in the loop
     for sc in sim_scs + scs:
         sc['bugs'] = as_is
     traces = run_scenarios(scs)
+    cross = list(range(0, len(scs), 10 if tier == 'quick' else 4))
+    other = run_scenarios([dict(scs[i], backend='fake' if scs[i]['backend'] == 'memory' else 'memory') for i in cross])
+    agree = sum(1 for i, t in zip(cross, other) if t == traces[i])
+    out.conformance['backends'] = {'scenarios_run_on_both': len(cross), 'identical_traces': agree}
+    if agree != len(cross):
+        j = next(i for i, t in zip(cross, other) if t != traces[i])
+        raise common.MachineryError('scripted memory handler and real Memory backend disagree on %r' % scs[j]['steps'])
     for t in sim_traces:
         t['bugs'] = as_is
     all_scs = sim_scs + scs
@@ -926,7 +1019,7 @@ def main(tier, seed, replay=None):
     if drift:
         i, at = drift[0]
         out.conformance['code_to_spec']['first_drift'] = {'scenario': all_scs[i], 'chunk': at}
-    notquiet = [i for i, t in enumerate(all_traces) if not t['quiet']]
+    notquiet = [i for i, t in enumerate(all_traces) if not t['quiet'] and all_scs[i]['fam'] != 'tlc-sim']
     if notquiet:
         raise common.MachineryError('scenario did not reach quiescence: %r' % all_scs[notquiet[0]])
     badset = set()
@@ -934,7 +1027,7 @@ def main(tier, seed, replay=None):
     for (i, clause, at) in bad:
         badset.add(i)
         sig = signature(all_traces[i], clause, at)
-        n_ev = sum(len(c['ev']) for c in all_traces[i]['chunks'])
+        n_ev = (at, sum(len(c['ev']) for c in all_traces[i]['chunks']))
         if sig not in by_sig or n_ev < by_sig[sig][0]:
             by_sig[sig] = (n_ev, i, clause, at)
     for sig, (n_ev, i, clause, at) in sorted(by_sig.items()):          # the shortest witness of every signature
@@ -959,17 +1052,24 @@ def main(tier, seed, replay=None):
 
     # 4. sensitivity: in-memory mutants (on scenarios the unchanged tree passes) and a corrupted trace
     good = [i for i in range(len(sim_scs), len(all_scs)) if i not in badset]
-    step = max(1, len(good) // (500 if tier == 'quick' else 2500))
+    step = max(1, len(good) // (300 if tier == 'quick' else 1500))
     sub = [all_scs[i] for i in good[::step]]
-    for name in sorted(MUTANTS):
+    names = sorted(MUTANTS)
+    mtraces, owner = [], []
+    for name in names:
         mt = run_scenarios(sub, mutant=name)
-        o2 = common.Outcome('X01', tier, seed)
-        mbad, _ = judge(o2, mt, 'mutant ' + name, count=False)
+        mtraces += mt
+        owner += [name] * len(mt)
+    o2 = common.Outcome('X01', tier, seed)
+    mbad, _ = judge(o2, mtraces, 'mutants', count=False)        # one TLC batch run for all mutants
+    for name in names:
         clauses = {}
-        for (_i, c, _a) in mbad:
-            clauses[c] = clauses.get(c, 0) + 1
-        out.sensitivity['mutant:' + name] = '%d of %d traces rejected %s' % (len(mbad), len(mt), dict(sorted(clauses.items())))
-        if not mbad:
+        for (i, c, _a) in mbad:
+            if owner[i] == name:
+                clauses[c] = clauses.get(c, 0) + 1
+        n = sum(clauses.values())
+        out.sensitivity['mutant:' + name] = '%d of %d traces rejected %s' % (n, len(sub), dict(sorted(clauses.items())))
+        if not n:
             raise common.MachineryError('monitor did not reject in-memory mutant %s' % name)
     gi = next(i for i in good if all_scs[i]['fam'] == 'store' and any(e['e'] == 'persist' for c in all_traces[i]['chunks'] for e in c['ev']))
     for what in ('drop-mw', 'flip-cb', 'drop-persist'):
